@@ -577,6 +577,19 @@ static void op(long c, long, vh::Tok& t)
           if(n == k) { *it = *slot[j]; break; }
       }
     }
+  } else if(!strcmp(o, "vsubsettext")) {
+    // <k-th content item of slot[i]->toElement()> = String;   Variant::operator=(const String&) on a content item reached
+    // through its element (`Xml::Element c = e; c.content.front() = "new";`): toElement() clones a shared element, the items
+    // of the clone share their blocks with the items of the source
+    if(slotOk(t.v[1], i) && slot[i] && slot[i]->isElement()) {
+      long k = atol(t.v[2]);
+      if(k >= 0 && (unsigned long long)k < (unsigned long long)((const Xml::Variant*)slot[i])->toElement().content.size()) {
+        Xml::Element& e = slot[i]->toElement();
+        long n = 0;
+        for(List<Xml::Variant>::Iterator it = e.content.begin(), end = e.content.end(); it != end; ++it, ++n)
+          if(n == k) { *it = unhexs(t.v[3]); break; }
+      }
+    }
   } else if(!strcmp(o, "vsubmut")) {
     if(slotOk(t.v[1], i) && slot[i] && slot[i]->isElement()) {
       long k = atol(t.v[2]);
